@@ -39,7 +39,7 @@ CORE_NOT_COVERED = [
 PROPS["C03"] = dict(
     title="Parser-state combinators are all-or-nothing and match exactly",
     verus_units=[("core", {}, ""), ("core", {"feature.memchr": True}, "memchr")],
-    kani=[], searcher="prims",
+    kani=[], searcher=["prims", "state"],
     design_ref="DESIGN.md section 5, C03",
     technique="contract-based deductive verification (Verus): frame law with closure laws on every ParserState combinator, exact functional contracts on the Position matchers over vstd's UTF-8 theory; real code extracted from /repo each run",
     level_text="Unbounded proof for all call trees built from lawful closures and all inputs: every public ParserState operation is verified against the frame law (input, flags, snapshots below entry depth and earlier tokens untouched) given that its closure arguments obey it; failed sequence / any lookahead restore position, tokens (up to node tags, finding F2) and stack; rule emits exactly one balanced Start/End pair around its body's tokens iff it succeeds outside lookahead/atomic; match_string/insensitive/range/char_by/skip/skip_until_basic have exact iff/advance/stay/boundary postconditions proved from vstd's UTF-8 definitions.",
@@ -49,7 +49,7 @@ PROPS["C03"] = dict(
 PROPS["C04"] = dict(
     title="The token stream is a well-formed tree and every Pairs view agrees with it",
     verus_units=[("core", {}, ""), ("pairs", {}, "")],
-    kani=[], searcher="pairs",
+    kani=[], searcher=["pairs", "state"],
     design_ref="DESIGN.md section 5, C04",
     technique="contract-based deductive verification (Verus): recursive closed-forest predicate as part of the frame law of every ParserState operation; precondition of pairs::new discharged in state()",
     level_text="Part (a), emission: proved for all call trees of lawful closures that the tokens appended by any operation form a closed forest (balanced, properly nested, positions non-decreasing, on UTF-8 boundaries, within the text walked), hence every successful parse hands pairs::new a well-formed stream. Part (b), views: see the pairs unit.",
@@ -59,7 +59,7 @@ PROPS["C04"] = dict(
 PROPS["C08"] = dict(
     title="Failure reports point at the furthest failure with sound expectations",
     verus_units=[("core", {}, "")],
-    kani=[], searcher=None,
+    kani=[], searcher=["state"],
     design_ref="DESIGN.md section 5, C08",
     technique="contract-based deductive verification (Verus) with a ghost attempt history: exact functional model of track, history invariant preserved by every operation, state() reports attempt_pos and the sorted, deduplicated lists",
     level_text="Unbounded proof: track is verified against an exact functional model written from the property text (atomic => nothing; exactly-one-child exception; further => restart lists; same position => replace inner attempts; behind => nothing); a ghost set of (rule, position, polarity) events is extended in rule at both track sites; the invariant 'every listed rule is in the history at attempt_pos with the right polarity, no history entry lies beyond attempt_pos, attempt_pos is attained (or 0)' is preserved by every operation and exported by state(), whose Err branch reports attempt_pos (a boundary) and sort+dedup images of the two lists.",
@@ -79,7 +79,7 @@ PROPS["C12"] = dict(
 PROPS["C15"] = dict(
     title="Detailed error tracking is observationally transparent",
     verus_units=[("core", {}, "")],
-    kani=[], searcher=None,
+    kani=[], searcher=["state"],
     design_ref="DESIGN.md section 5, C15",
     technique="contract-based deductive verification (Verus): frame obligations at every place that consults parse_attempts.enabled, two-run lemmas derived from the matcher contracts, boundary invariant on max_position",
     level_text="Proved: handle_token_parse_result, try_add_new_token, nullify_expected_tokens and the detail block inlined in rule change nothing but parse_attempts; for the four matchers a two-run lemma (states equal except parse_attempts => results equal except parse_attempts, same Ok/Err) follows from their contracts; max_position is always a UTF-8 boundary of the input. try_add_new_stack_rule (iterator adaptors, splice) has an assumed contract.",
